@@ -111,9 +111,13 @@ func runCase(t *testing.T, c Case, wd time.Duration, out string) (res Result) {
 			if caseRunning.Load() != gen {
 				return
 			}
-			buf := make([]byte, 4<<20)
-			n := runtime.Stack(buf, true)
-			r := Result{Case: c, Status: "hang", WallMS: time.Since(t0).Milliseconds(), Dump: string(buf[:n])}
+			// two dumps three seconds apart: a goroutine that sits in a mutex wait
+			// inside the library in both is a persistent lock wait (deadlock), which
+			// synctest cannot see as "durably blocked"
+			d1 := bubbleDump()
+			time.Sleep(3 * time.Second)
+			d2 := bubbleDump()
+			r := Result{Case: c, Status: "hang", WallMS: time.Since(t0).Milliseconds(), Dump: d1, Dump2: d2}
 			b, _ := json.Marshal(r)
 			f, _ := os.OpenFile(out, os.O_APPEND|os.O_CREATE|os.O_WRONLY, 0o644)
 			f.Write(append(b, '\n'))
@@ -154,6 +158,20 @@ func runCase(t *testing.T, c Case, wd time.Duration, out string) (res Result) {
 		res = Result{Case: c, Status: "error", Notes: []string{"subtest failed"}}
 	}
 	return res
+}
+
+// bubbleDump returns the stacks of all goroutines that are in a synctest bubble
+// or have a grpctunnel frame.
+func bubbleDump() string {
+	buf := make([]byte, 8<<20)
+	n := runtime.Stack(buf, true)
+	var keep []string
+	for _, b := range strings.Split(string(buf[:n]), "\n\n") {
+		if strings.Contains(b, "synctest bubble") || strings.Contains(b, "github.com/jhump/grpctunnel") {
+			keep = append(keep, b)
+		}
+	}
+	return strings.Join(keep, "\n\n")
 }
 
 func collect(w *World, c Case, t0 time.Time) Result {
